@@ -422,7 +422,7 @@ func (c *Collection) WriteCas(key string, exp Exp, cas CAS, val any, opt sgbucke
 // Remove creates a document tombstone. It removes the document's value and user xattrs.
 func (c *Collection) Remove(key string, cas CAS) (casOut CAS, err error) {
 	traceEnter("Remove", "%q, 0x%x", key, cas)
-	casOut, err = c.remove(key, &cas)
+	casOut, err = c.remove(key, &cas, 0)
 	traceExit("Remove", err, "0x%x", casOut)
 	return
 }
@@ -430,25 +430,32 @@ func (c *Collection) Remove(key string, cas CAS) (casOut CAS, err error) {
 // Delete creates a document tombstone. It removes the document's value and user xattrs. Equivalent to Remove without a CAS check.
 func (c *Collection) Delete(key string) (err error) {
 	traceEnter("Delete", "%q", key)
-	_, err = c.remove(key, nil)
+	_, err = c.remove(key, nil, 0)
 	traceExit("Delete", err, "ok")
 	return err
 }
 
+// errNotExpired is returned by remove when the document is not (or no longer) due to expire.
+var errNotExpired = errors.New("document has not expired")
+
 // remove creates a document tombstone. It removes the document's value and user xattrs. checkClosed will allow removing the document even the bucket instance is "closed".
-func (c *Collection) remove(key string, ifCas *CAS) (casOut CAS, err error) {
+// If ifExpiredBy is nonzero, the document is removed only if it has an expiry that is no later than that.
+func (c *Collection) remove(key string, ifCas *CAS, ifExpiredBy Exp) (casOut CAS, err error) {
 	err = c.withNewCas(func(txn *sql.Tx, newCas CAS) (e *event, err error) {
 		// Get the doc, possibly checking cas:
 		var cas CAS
 		var rawXattrs []byte
 		var revSeqNo uint64
+		var exp Exp
 		row := txn.QueryRow(
-			`SELECT cas, xattrs, revSeqNo FROM documents WHERE collection=?1 AND key=?2`,
+			`SELECT cas, xattrs, revSeqNo, exp FROM documents WHERE collection=?1 AND key=?2`,
 			c.id, key)
-		if err = scan(row, &cas, &rawXattrs, &revSeqNo); err != nil {
+		if err = scan(row, &cas, &rawXattrs, &revSeqNo, &exp); err != nil {
 			return nil, remapKeyError(err, key)
 		} else if ifCas != nil && cas != *ifCas {
 			return nil, sgbucket.CasMismatchErr{Expected: *ifCas, Actual: cas}
+		} else if ifExpiredBy != 0 && (exp == 0 || exp > ifExpiredBy) {
+			return nil, errNotExpired
 		}
 		revSeqNo++
 
@@ -601,11 +608,12 @@ func (c *Collection) expireDocuments() (count int64, err error) {
 	}
 	verifPoint("expiry.window", c.bucket.name, keys)
 
-	// Now delete each doc. (This has to be done after the above query finishes, because Delete()
+	// Now delete each doc. (This has to be done after the above query finishes, because remove()
 	// will get its own db connection, and if the db only supports one connection (i.e. in-memory)
-	// having both queries active would deadlock.)
+	// having both queries active would deadlock.) A document may have been given a new expiry, or
+	// none, since the query ran, so the expiry is checked again inside the transaction that removes it.
 	for _, key := range keys {
-		if c.Delete(key) == nil {
+		if _, err := c.remove(key, nil, exp); err == nil {
 			count++
 		}
 	}
